@@ -184,8 +184,13 @@ func runC19() *RunResult {
 			item int
 		}
 		nh := 2 + rn(9)
+		prevItem := -1
 		for h := 0; h < nh; h++ {
 			item := rn(n)
+			if prevItem >= 0 && chance(15) {
+				item = prevItem // the very same call again
+			}
+			prevItem = item
 			it := c19Corpus[item]
 			kind := rn(10)
 			inject := 0
